@@ -67,4 +67,7 @@ def emit_findings(ctx, ext):
     bad = [str(name_code(k["key"].split(":")[2])) for k in C.load_known()
            if k["property"] == "C06" and k.get("status") == "known" and k["key"].startswith("C06:method:")]
     f.list_def("c06KnownMethods", "Nat", bad)
+    # C17: (operand variant index, enumerant value) pairs whose parameter quantifier the parser ignores
+    q = [k["lean"] for k in C.load_known() if k["property"] == "C17" and k.get("status") == "known" and "lean" in k]
+    f.list_def("c17KnownQuant", "Nat × Nat", q)
     lean_emit.write_if_changed(C.GEN + "/Findings.lean", f.text())
